@@ -139,8 +139,6 @@ func (b *BinaryExpression) SQL() string {
 	if b == nil {
 		return ""
 	}
-	left := exprSQL(b.Left)
-	right := exprSQL(b.Right)
 	op := b.Operator
 	if b.CustomOp != nil {
 		op = b.CustomOp.String()
@@ -148,10 +146,26 @@ func (b *BinaryExpression) SQL() string {
 
 	upperOp := strings.ToUpper(op)
 
+	// NOT EXISTS (...) is stored as a NOT operator with the EXISTS expression on the left
+	if upperOp == "NOT" && b.Right == nil {
+		return "NOT " + operandSQL(b.Left, precNot)
+	}
+
+	prec := binaryOperatorPrecedence(upperOp)
+	leftMin, rightMin := prec, prec+1 // left-associative
+	if prec == precComparison {
+		leftMin = prec + 1 // comparisons do not chain
+	}
+	left := operandSQL(b.Left, leftMin)
+
 	// Handle IS NULL / IS NOT NULL (right side is NULL literal)
 	if upperOp == "IS NULL" || upperOp == "IS NOT NULL" {
+		if b.Not && upperOp == "IS NULL" {
+			upperOp = "IS NOT NULL"
+		}
 		return fmt.Sprintf("%s %s", left, upperOp)
 	}
+	right := operandSQL(b.Right, rightMin)
 
 	// Handle special operators like LIKE, ILIKE, SIMILAR TO
 	if b.Not {
@@ -166,11 +180,96 @@ func (b *BinaryExpression) SQL() string {
 	return fmt.Sprintf("%s %s %s", left, op, right)
 }
 
+// Operator precedence levels, lowest first. The tree has no node for
+// parentheses, so they are re-inserted from these levels when a tree is
+// written back as SQL text.
+const (
+	precOr = iota + 1
+	precAnd
+	precNot
+	precComparison // = <> < > <= >= LIKE IS NULL IN BETWEEN ANY ALL and regex matches
+	precConcat     // ||
+	precAdditive   // + -
+	precMultiplicative
+	precJSON  // -> ->> #> #>> @> <@ ? ?| ?& #-
+	precUnary // unary + and -
+	precPrimary
+)
+
+func binaryOperatorPrecedence(upperOp string) int {
+	switch upperOp {
+	case "OR":
+		return precOr
+	case "AND":
+		return precAnd
+	case "||":
+		return precConcat
+	case "+", "-":
+		return precAdditive
+	case "*", "/", "%":
+		return precMultiplicative
+	case "->", "->>", "#>", "#>>", "@>", "<@", "?", "?|", "?&", "#-":
+		return precJSON
+	}
+	return precComparison
+}
+
+// exprPrecedence returns the precedence level of the outermost operator of e
+// as its SQL() method writes it.
+func exprPrecedence(e Expression) int {
+	switch x := e.(type) {
+	case *BinaryExpression:
+		if x == nil {
+			return precPrimary
+		}
+		op := strings.ToUpper(x.Operator)
+		if op == "NOT" && x.Right == nil {
+			return precNot
+		}
+		if x.Not && op != "IS NULL" && op != "IS NOT NULL" && op != "LIKE" && op != "ILIKE" && op != "SIMILAR TO" {
+			return precNot // written as NOT (...)
+		}
+		if x.CustomOp != nil {
+			return precComparison
+		}
+		return binaryOperatorPrecedence(op)
+	case *UnaryExpression:
+		if x == nil {
+			return precPrimary
+		}
+		if x.Operator == Not {
+			return precNot
+		}
+		return precUnary
+	case *BetweenExpression, *InExpression, *AnyExpression, *AllExpression:
+		return precComparison
+	case *AliasedExpression:
+		return precOr - 1
+	}
+	return precPrimary
+}
+
+// operandSQL writes e, parenthesised when its outermost operator binds less
+// tightly than minPrec.
+func operandSQL(e Expression, minPrec int) string {
+	if e == nil {
+		return ""
+	}
+	if exprPrecedence(e) < minPrec {
+		return "(" + exprSQL(e) + ")"
+	}
+	return exprSQL(e)
+}
+
 func (u *UnaryExpression) SQL() string {
 	if u == nil {
 		return ""
 	}
-	inner := exprSQL(u.Expr)
+	if u.Operator == Not {
+		return "NOT " + operandSQL(u.Expr, precNot)
+	}
+	// a nested sign is parenthesised too: "- -a" must not become the comment "--a"
+	inner := operandSQL(u.Expr, precUnary+1)
 	switch u.Operator {
 	case Not:
 		return "NOT " + inner
@@ -239,7 +338,7 @@ func (b *BetweenExpression) SQL() string {
 	if b.Not {
 		not = "NOT "
 	}
-	return fmt.Sprintf("%s %sBETWEEN %s AND %s", exprSQL(b.Expr), not, exprSQL(b.Lower), exprSQL(b.Upper))
+	return fmt.Sprintf("%s %sBETWEEN %s AND %s", operandSQL(b.Expr, precComparison+1), not, operandSQL(b.Lower, precComparison+1), operandSQL(b.Upper, precComparison+1))
 }
 
 func (i *InExpression) SQL() string {
@@ -251,13 +350,13 @@ func (i *InExpression) SQL() string {
 		not = "NOT "
 	}
 	if i.Subquery != nil {
-		return fmt.Sprintf("%s %sIN (%s)", exprSQL(i.Expr), not, stmtSQL(i.Subquery))
+		return fmt.Sprintf("%s %sIN (%s)", operandSQL(i.Expr, precComparison+1), not, stmtSQL(i.Subquery))
 	}
 	vals := make([]string, len(i.List))
 	for idx, v := range i.List {
 		vals[idx] = exprSQL(v)
 	}
-	return fmt.Sprintf("%s %sIN (%s)", exprSQL(i.Expr), not, strings.Join(vals, ", "))
+	return fmt.Sprintf("%s %sIN (%s)", operandSQL(i.Expr, precComparison+1), not, strings.Join(vals, ", "))
 }
 
 func (e *ExistsExpression) SQL() string {
@@ -278,14 +377,14 @@ func (a *AnyExpression) SQL() string {
 	if a == nil {
 		return ""
 	}
-	return fmt.Sprintf("%s %s ANY (%s)", exprSQL(a.Expr), a.Operator, stmtSQL(a.Subquery))
+	return fmt.Sprintf("%s %s ANY (%s)", operandSQL(a.Expr, precComparison+1), a.Operator, stmtSQL(a.Subquery))
 }
 
 func (a *AllExpression) SQL() string {
 	if a == nil {
 		return ""
 	}
-	return fmt.Sprintf("%s %s ALL (%s)", exprSQL(a.Expr), a.Operator, stmtSQL(a.Subquery))
+	return fmt.Sprintf("%s %s ALL (%s)", operandSQL(a.Expr, precComparison+1), a.Operator, stmtSQL(a.Subquery))
 }
 
 func (f *FunctionCall) SQL() string {
@@ -398,7 +497,7 @@ func (a *ArraySubscriptExpression) SQL() string {
 	if a == nil {
 		return ""
 	}
-	s := exprSQL(a.Array)
+	s := operandSQL(a.Array, precPrimary)
 	for _, idx := range a.Indices {
 		s += "[" + exprSQL(idx) + "]"
 	}
@@ -417,7 +516,7 @@ func (a *ArraySliceExpression) SQL() string {
 	if a.End != nil {
 		end = exprSQL(a.End)
 	}
-	return fmt.Sprintf("%s[%s:%s]", exprSQL(a.Array), start, end)
+	return fmt.Sprintf("%s[%s:%s]", operandSQL(a.Array, precPrimary), start, end)
 }
 
 // GROUP BY advanced expressions
@@ -1222,9 +1321,17 @@ func windowSpecSQL(w *WindowSpec) string {
 
 func windowFrameSQL(f *WindowFrame) string {
 	if f.End != nil {
-		return fmt.Sprintf("%s BETWEEN %s AND %s", f.Type, f.Start.Type, f.End.Type)
+		return fmt.Sprintf("%s BETWEEN %s AND %s", f.Type, frameBoundSQL(f.Start), frameBoundSQL(*f.End))
 	}
-	return fmt.Sprintf("%s %s", f.Type, f.Start.Type)
+	return fmt.Sprintf("%s %s", f.Type, frameBoundSQL(f.Start))
+}
+
+// frameBoundSQL writes a frame bound, including the offset of "n PRECEDING" / "n FOLLOWING".
+func frameBoundSQL(b WindowFrameBound) string {
+	if b.Value != nil {
+		return exprSQL(b.Value) + " " + b.Type
+	}
+	return b.Type
 }
 
 func fetchSQL(f *FetchClause) string {
